@@ -121,8 +121,22 @@ func c19scenarioChild(raw json.RawMessage, scratch string) {
 		_, tcp := newTarget()
 		c.SourceAddressList, c.TargetAddressList = []string{src.Addr}, []string{tcp.Addr}
 		conf.Options = c
-		go (&run.CmdSync{}).Main()
-		time.Sleep(4 * time.Second) // the syncer restarts itself until its retry budget ends the process
+		cmd := &run.CmdSync{}
+		go cmd.Main()
+		// the syncer restarts itself until its retry budget ends the process; the status documents are sampled while it
+		// does (what they show between two attempts is served like anything else)
+		for k := 0; k < 400; k++ {
+			if k < 300 {
+				time.Sleep(time.Millisecond) // the restarts follow each other within milliseconds
+			} else {
+				time.Sleep(40 * time.Millisecond)
+			}
+			func() {
+				defer func() { recover() }()
+				extra("CmdSync.GetDetailedInfo(while-restarting)", cmd.GetDetailedInfo())
+				extra("metric.NewMetricRest(while-restarting)", metric.NewMetricRest())
+			}()
+		}
 	case "restore":
 		c := base
 		c.Type = conf.TypeRestore
@@ -194,7 +208,10 @@ func c19scenarioChild(raw json.RawMessage, scratch string) {
 		master.Feed(stream[:len(stream)/2])
 		time.Sleep(1500 * time.Millisecond)
 		master.DropNow() // the resume is refused: the syncer reports the error and starts over (topology discovery included)
-		time.Sleep(3 * time.Second)
+		for k := 0; k < 30; k++ {
+			time.Sleep(100 * time.Millisecond)
+			extra("DbSyncer.GetExtraInfo(while-restarting)", ds.GetExtraInfo())
+		}
 		extra("DbSyncer.GetExtraInfo", ds.GetExtraInfo())
 	case "checkpoint-load":
 		conf.Options = base
